@@ -48,39 +48,43 @@ class NeurolucidaAscToSwc(Transform[str, Tree]):
         typee = [types.undefined]
 
         def walk_ast(root: ASTNode, pid: int = -1) -> None:
+            # explicit stack: a branch of n points is an AST of depth n
             nonlocal next_id, typee
-            match root.type:
-                case ASTType.ROOT:
-                    for n in root.children:
-                        walk_ast(n)
-
-                case ASTType.TREE:
-                    match root.value:
-                        case "AXON":
-                            typee.append(types.axon)
-                        case "DENDRITE":
-                            typee.append(types.basal_dendrite)
-
-                    for n in root.children:
-                        walk_ast(n)
-
+            stack: list[tuple[ASTNode | None, int]] = [(root, pid)]
+            while len(stack) > 0:
+                node, pid = stack.pop()
+                if node is None:  # leave a tree
                     typee.pop()
+                    continue
 
-                case ASTType.NODE:
-                    x, y, z, r = root.value
-                    idx = next_id
-                    next_id += 1
+                match node.type:
+                    case ASTType.ROOT:
+                        stack.extend((n, -1) for n in reversed(node.children))
 
-                    ndata[names.id].append(idx)
-                    ndata[names.type].append(typee[-1])
-                    ndata[names.x].append(x)
-                    ndata[names.y].append(y)
-                    ndata[names.z].append(z)
-                    ndata[names.r].append(r)
-                    ndata[names.pid].append(pid)
+                    case ASTType.TREE:
+                        match node.value:
+                            case "AXON":
+                                typee.append(types.axon)
+                            case "DENDRITE":
+                                typee.append(types.basal_dendrite)
 
-                    for n in root.children:
-                        walk_ast(n, pid=idx)
+                        stack.append((None, -1))
+                        stack.extend((n, -1) for n in reversed(node.children))
+
+                    case ASTType.NODE:
+                        x, y, z, r = node.value
+                        idx = next_id
+                        next_id += 1
+
+                        ndata[names.id].append(idx)
+                        ndata[names.type].append(typee[-1])
+                        ndata[names.x].append(x)
+                        ndata[names.y].append(y)
+                        ndata[names.z].append(z)
+                        ndata[names.r].append(r)
+                        ndata[names.pid].append(pid)
+
+                        stack.extend((n, idx) for n in reversed(node.children))
 
         walk_ast(ast)
         tree = Tree(
